@@ -711,6 +711,7 @@ def main():
     except (IOError, ValueError):
         pass
     ck.trusted = ['Coq 8.16.1 kernel (vm_compute for the non-vacuity examples only)',
+                  'translate/kspec_c17.py (fail-closed ast generator for the allocation logic of llc.py -> Gen/AddrK.v)',
                   'extraction: ExtrOcamlBasic only; extract/c17_run.ml driver (prints results and table digests)',
                   'harness/sim/c17_llc.py: real LogicalLinkController objects, helper threads for calls that reach wait(), '
                   'instrumented condition variables / receive queues (instance attributes only)']
@@ -724,7 +725,7 @@ def main():
                       'the model carries both versions of DataLinkConnection.enqueue for a non connection-mode PDU in state '
                       'ESTABLISHED (close()+wait / FRMR only); which one the source has is decided by running it (sim.enqueue_blocks); '
                       'theorems hold for both']
-    ck.coq(targets=['Model/Addr.vo'] + PROOF_TARGETS, props='C17')
+    ck.coq(gen=['AddrK'], targets=['Model/Addr.vo'] + PROOF_TARGETS + ['Bridge/Addr.vo'], props='C17')
     mr = ck.model()
     if mr is None:
         ck.finish()
